@@ -4,6 +4,8 @@ import (
 	"context"
 	"fmt"
 	"reflect"
+	"sync/atomic"
+	"unsafe"
 )
 
 var (
@@ -14,16 +16,17 @@ var (
 type FieldQuery struct {
 	Name   string
 	Fields []*FieldQuery
-	hash   string
+	hash   unsafe.Pointer // *string, computed lazily; a FieldQuery may be shared by goroutines
 }
 
 func (q *FieldQuery) Hash() string {
-	if q.hash != "" {
-		return q.hash
+	if p := (*string)(atomic.LoadPointer(&q.hash)); p != nil {
+		return *p
 	}
 	b, _ := Marshal(q)
-	q.hash = string(b)
-	return q.hash
+	hash := string(b)
+	atomic.StorePointer(&q.hash, unsafe.Pointer(&hash))
+	return hash
 }
 
 func (q *FieldQuery) MarshalJSON() ([]byte, error) {
